@@ -53,6 +53,8 @@ pub enum OAct {
     RewrapOrInsert(u64),
     /// terminal: `Entry::Occupied(e).and_modify(..).or_insert_with(..)`
     RewrapModify(u64),
+    /// terminal: `Entry::Occupied(e).or_default()`
+    RewrapOrDefault,
     /// terminal
     Forget,
 }
@@ -240,7 +242,9 @@ pub fn gen_universe(rng: &mut Rng, width: u8, full_u8: bool) -> Vec<Raw> {
                 1 => left_align(w, !0u128),
                 _ => left_align(w, rng.u128()),
             };
-            let mut lens: Vec<u8> = (0..=8.min(w)).collect();
+            // sometimes a deep comb at the shallow end (more than 33 nested levels on wide types)
+            let shallow = if w >= 64 && rng.chance(1, 4) { 44 } else { 8.min(w) };
+            let mut lens: Vec<u8> = (0..=shallow).collect();
             lens.extend(w.saturating_sub(8)..=w);
             for l in lens {
                 let k = Raw { addr: base & mask(l), len: l };
@@ -448,7 +452,13 @@ impl Gen<'_> {
                 match self.rng.below(6) {
                     0 | 1 if !removed || allow_uar => occ.push(OAct::Insert(self.v())),
                     2 => occ.push(OAct::RewrapOrInsert(self.v())),
-                    3 => occ.push(OAct::RewrapModify(self.v())),
+                    3 => {
+                        if self.rng.chance(1, 2) {
+                            occ.push(OAct::RewrapModify(self.v()))
+                        } else {
+                            occ.push(OAct::RewrapOrDefault)
+                        }
+                    }
                     4 if self.cfg.faults => occ.push(OAct::Forget),
                     _ => {}
                 }
@@ -603,11 +613,35 @@ pub fn generate(verif_seed: u64, params: &GenParams, run: u64) -> Script {
         hot.push(*rng.pick(&cfg.universe));
     }
     let weights = family_weights(&family);
-    let mut g = Gen { rng: &mut rng, cfg: cfg.clone(), width, next_v: 100, hot, uar: params.property == "C20" };
+    let mut g = Gen { rng: &mut rng, cfg: cfg.clone(), width, next_v: 100, hot, uar: params.property == "C20" || params.property == "C04" };
     let mut steps = Vec::with_capacity(nsteps);
     // chain universes: often start from the fully populated chain (a node at every length of the
     // shallow and the deep end of one path), inserted in a random order
-    let is_chain = !g.cfg.full_u8 && g.cfg.universe.len() >= 9 && (0..=8u8.min(width)).all(|l| g.cfg.universe.iter().any(|r| r.len == l)) && g.cfg.universe.iter().filter(|r| r.len == 0).count() == 1 && g.cfg.universe.iter().all(|r| r.len <= 8 || r.len >= width.saturating_sub(8));
+    let is_chain = !g.cfg.full_u8 && g.cfg.universe.len() >= 9 && (0..=8u8.min(width)).all(|l| g.cfg.universe.iter().any(|r| r.len == l)) && g.cfg.universe.iter().filter(|r| r.len == 0).count() == 1 && g.cfg.universe.iter().all(|r| r.len <= 44 || r.len >= width.saturating_sub(8));
+    // "leftovers" preamble on the full 8-bit universe: many entries, most (sometimes all) of them
+    // removed again with remove_keep_tree -> dozens of value-less nodes, large sparse arenas
+    if g.cfg.full_u8 && g.rng.chance(1, 5) {
+        let m = g.m();
+        let n = g.rng.range(40, 160) as usize;
+        let mut keys: Vec<Raw> = (0..n).map(|_| *g.rng.pick(&g.cfg.universe)).collect();
+        keys.sort();
+        keys.dedup();
+        g.rng.shuffle(&mut keys);
+        for k in &keys {
+            let v = g.v();
+            steps.push(Step::Insert { m, k: *k, v });
+        }
+        let all = g.rng.chance(1, 3);
+        for k in &keys {
+            if all || g.rng.chance(9, 10) {
+                if g.rng.chance(1, 12) {
+                    steps.push(Step::Remove { m, k: *k });
+                } else {
+                    steps.push(Step::RemoveKeepTree { m, k: *k });
+                }
+            }
+        }
+    }
     if is_chain && g.rng.chance(2, 3) {
         let mut keys = g.cfg.universe.clone();
         g.rng.shuffle(&mut keys);
